@@ -79,6 +79,53 @@ Theorem slice_convert_no_nul_before_notification :
 Proof. intros. apply slice_convert_guarded_proof. reflexivity. Qed.
 Print Assumptions slice_convert_no_nul_before_notification.
 
+(* 6c/7c. the same two statements for the plan the correspondence runs use under context options: the sink calls
+      computed by the Core model (Model/SearcherCore.v via Model/CorePlan.v) for ANY searcher configuration
+      (-A/-B/-C, --passthru, --stop-on-nonmatch, -v) and any matcher: matched AND context lines are covered *)
+From RG Require Import Model.CorePlan Proofs.CorePlanProofs.
+From RG Require Model.SearcherCore.
+Theorem core_plan_slice_quit_no_nul_in_events :
+  forall (St : Type) (sink : St -> event -> St * bool) (b : byte) (sniff : nat) (slice : bytes)
+         (cfg : SearcherCore.config) (M : SearcherCore.matcher) (s0 : St),
+    Forall (ev_free b)
+      (snd (slice_run sink (BQuit b) sniff slice (fst (core_slice_plan cfg M slice))
+                      (snd (core_slice_plan cfg M slice)) (s0, []))).
+Proof. exact core_plan_slice_quit_proof. Qed.
+Print Assumptions core_plan_slice_quit_no_nul_in_events.
+
+Theorem core_plan_slice_convert_no_nul_before_notification :
+  forall (St : Type) (sink : St -> event -> St * bool) (b : byte) (sniff : nat) (slice : bytes)
+         (cfg : SearcherCore.config) (M : SearcherCore.matcher) (s0 : St),
+    guarded b
+      (rev (snd (slice_run sink (BConvert b) sniff slice (fst (core_slice_plan cfg M slice))
+                           (snd (core_slice_plan cfg M slice)) (s0, [])))).
+Proof. exact core_plan_slice_convert_proof. Qed.
+Print Assumptions core_plan_slice_convert_no_nul_before_notification.
+
+(* the plan is not empty talk: "a\na\nx\0\nb\na\n", pattern a, --passthru, one sniffed byte, quit mode: Core plans
+   five sink calls (the third is the passthru context line holding the NUL); the run stops at that line *)
+Example core_plan_passthru_context_line_example :
+  let pcfg := plan_cfg 10 false 0 0 true false in
+  let M := plan_matcher pcfg [[97%N]] in
+  let s := [97; 10; 97; 10; 120; 0; 10; 98; 10; 97; 10]%N in
+  let plan := core_slice_plan pcfg M s in
+  map (fun c => (c_matched c, c_start c, c_end c)) (fst plan)
+    = [(true, 0, 2); (true, 2, 4); (false, 4, 7); (false, 7, 9); (true, 9, 11)] /\
+  rev (snd (slice_run (fun (n : nat) (_ : event) => (n, true)) (BQuit 0) 1 s (fst plan) (snd plan) (0, [])))
+    = [EBegin; EMatched 0 [97; 10]%N; EMatched 2 [97; 10]%N; EBinary 5; EFinish 5 (Some 5)].
+Proof. vm_compute. split; reflexivity. Qed.
+
+(* --stop-on-nonmatch -A1, convert mode: the after-context line with the NUL is delivered by the slow path, after
+   the notification *)
+Example core_plan_stop_on_nonmatch_after_example :
+  let pcfg := plan_cfg 10 false 0 1 false true in
+  let M := plan_matcher pcfg [[97%N]] in
+  let s := [98; 10; 97; 10; 120; 0; 10; 98; 10; 97; 10]%N in
+  let plan := core_slice_plan pcfg M s in
+  rev (snd (slice_run (fun (n : nat) (_ : event) => (n, true)) (BConvert 0) 1 s (fst plan) (snd plan) (0, [])))
+    = [EBegin; EMatched 2 [97; 10]%N; EBinary 5; EContext KAfter 4 [120; 0; 10]%N; EFinish 5 (Some 5)].
+Proof. vm_compute. reflexivity. Qed.
+
 (* 8. the standard printer writes exactly std_spec of the delivered events *)
 Theorem std_sink_eq_spec :
   forall (cfg : std_cfg) (render : event -> bytes) (evs : list event) (st : std_sink),
